@@ -388,6 +388,8 @@ def weave_fn(src, container, name, nth, opts, subs, mode, sig_only=False):
             raise Undecided('unknown sub-directive %s' % kind)
 
     # signature-level insertions
+    if sig_only:
+        sig_end = text.rstrip().rfind(';')
     sig_text = text[:sig_end]
     if ret:
         m = re.search(r'->\s*', sig_text)
@@ -476,7 +478,7 @@ def weave_fn(src, container, name, nth, opts, subs, mode, sig_only=False):
     return out, rec, linemap
 
 
-def weave_struct(src, name, keep_derive, container='-'):
+def weave_struct(src, name, keep_derive, container='-', derive=None):
     for kind in ('struct', 'enum'):
         try:
             s, e = src.find_item(kind, name, container)
@@ -499,6 +501,17 @@ def weave_struct(src, name, keep_derive, container='-'):
     out = '\n'.join(lines)
     if not out.lstrip().startswith('pub'):
         out = 'pub ' + out
+    if derive:
+        # keep the requested derives, provided the source really has them (R1 drops the others)
+        pre = src.text[max(0, s - 400):s]
+        m = None
+        for m in re.finditer(r'#\[derive\(([^)]*)\)\]', pre):
+            pass
+        have = [d.strip() for d in m.group(1).split(',')] if m else []
+        for d in derive:
+            if d not in have:
+                raise Lost('derive(%s) no longer present on %s' % (d, name))
+        out = '#[derive(%s)]\n' % ', '.join(derive) + out
     return out, src.line_of(s)
 
 
@@ -593,13 +606,21 @@ class Unit:
             elif d == 'struct':
                 parts = arg.split()
                 container = '-'
-                text, line = weave_struct(self.source(cur_src), parts[0], 'keep_derive' in parts)
+                derive = None
+                for p_ in parts[1:]:
+                    if p_.startswith('derive='):
+                        derive = p_[7:].split(',')
+                text, line = weave_struct(self.source(cur_src), parts[0], False, derive=derive)
                 self.emit('// extracted from %s:%d' % (cur_src, line))
                 self.emit(text)
                 self.items.append({'item': 'struct ' + parts[0], 'file': cur_src, 'line': line})
             elif d == 'const':
+                container = '-'
+                if '::' in arg:
+                    container, arg = arg.rsplit('::', 1)
+                    container = container.strip()
                 parts = arg.split()
-                text, line = weave_const(self.source(cur_src), parts[0])
+                text, line = weave_const(self.source(cur_src), parts[0], container)
                 if 'pub' in parts[1:] and not text.startswith('pub'):
                     text = 'pub ' + text
                 self.emit('// extracted from %s:%d' % (cur_src, line))
